@@ -133,6 +133,11 @@ def cases(ctx, n):
                     for doc in ('DEBATESECTION\n' + g, 'DEBATESECTION\n' + g + '  SPEECH\n    FROM b\n    words\n', 'DEBATESECTION\n  SPEECH\n    FROM a\n    words\n' + g,
                                 'DEBATESECTION\n' + g + '  SCENE\n    applause\n'):
                         out.append((stages.URIS[0], 'debate', '', doc))
+        # references whose FOOTNOTE block is nowhere to be found (two or more in one document, same and different markers, in text / heading / table)
+        for root in gen.ROOTS7:
+            for t in ('SEC 1. - Definitions\n  a vertebrate{{FOOTNOTE 1}} other than a human{{FOOTNOTE 2}}.\n', 'x {{FOOTNOTE a}}\ny {{FOOTNOTE a}}\nz {{FOOTNOTE b}}\n',
+                      'PART 1 - Heading {{FOOTNOTE *}}\n  SEC 1 - Other {{FOOTNOTE **}}\n    x {{FOOTNOTE *}}\n', 'TABLE\n  TR\n    TC\n      a {{FOOTNOTE 1}}\n    TC\n      b {{FOOTNOTE 2}}\n'):
+                out.append((stages.URIS[0], root, '', t))
         return out + repeat_docs(ctx, max(40, n // 20))
     finally:
         gen.gen_attrs = old
@@ -190,6 +195,29 @@ def _footnote_surplus(case):
     walk(d, frozenset())
     return any(blocks[m] > refs[m] for m in blocks)
 
+def _empty_notes_have_blocks(case):
+    """an authorialNote is only ever left empty when it took a FOOTNOTE block (whose content was empty, was emptied by normalisation, or
+    was itself taken by a reference nested in it): per marker, no more empty notes in the output than FOOTNOTE blocks in the dict tree.
+    A note whose reference found no block gets the '(content missing)' paragraph and is never empty"""
+    try:
+        p = impl.parser()
+        d = p.parse(case['text'], case['root']).to_dict()
+        from cobalt import FrbrUri
+        from bluebell.parser import AkomaNtosoParser
+        xml = AkomaNtosoParser(FrbrUri.parse(case['uri']), case['prefix']).parse_to_xml(case['text'], case['root'])
+    except Exception:
+        return False
+    blocks, empty = collections.Counter(), collections.Counter()
+    def walk(n):
+        if n.get('name') == 'displaced': blocks[(n.get('attribs') or {}).get('marker')] += 1
+        for key in ('heading', 'subheading', 'from', 'children'):
+            for k in n.get(key, []) or []:
+                if isinstance(k, dict): walk(k)
+    walk(d)
+    for a in xml.iter('{*}authorialNote'):
+        if len(a) == 0: empty[a.get('marker')] += 1
+    return all(empty[m] <= blocks[m] for m in empty)
+
 def _err(case):
     e = case.get('error') or ['?', None, '?']
     return e[0], e[1], e[2]
@@ -201,7 +229,8 @@ CLASSIFIERS = {
     # emptied them is removed in the same pass: an empty LONGTITLE or CROSSHEADING line in the input
     'emptied_container': lambda c, d: _err(c)[2] == 'missing-child' and (
         (_err(c)[0] in EMPTYABLE and (_err(c)[0] not in ('preface', 'preamble', 'conclusions')
-                                      or re.search(r'^[ \t]*(LONGTITLE|CROSSHEADING)[ \t]*$', c.get('text', ''), re.M) is not None))
+                                      or re.search(r'^[ \t]*(LONGTITLE|CROSSHEADING)[ \t]*$', c.get('text', ''), re.M) is not None)
+         and (_err(c)[0] != 'authorialNote' or _empty_notes_have_blocks(c)))
         # a speech container or group whose only content was a FOOTNOTE block that a reference took
         or (_err(c)[0] in SPEECH and 'FOOTNOTE' in c.get('text', ''))),
     'crossheading_misplaced': lambda c, d: _err(c)[0] == 'crossHeading' and _err(c)[2] == 'not-expected',
